@@ -3792,6 +3792,19 @@ func (w *Writer) resolveRuntimeArrayInfo(baseHandle ir.ExpressionHandle) (runtim
 		return runtimeArrayInfo{}, false
 	}
 	expr := &w.currentFunction.Expressions[baseHandle]
+	// A global that is itself a runtime-sized array (`var<storage> a: array<T>`):
+	// the array starts at offset 0 of the binding.
+	if gv, isGlobal := expr.Kind.(ir.ExprGlobalVariable); isGlobal {
+		if int(gv.Variable) < len(w.module.GlobalVariables) {
+			ty := w.module.GlobalVariables[gv.Variable].Type
+			if int(ty) < len(w.module.Types) {
+				if arr, isArr := w.module.Types[ty].Inner.(ir.ArrayType); isArr && arr.Size.Constant == nil {
+					return runtimeArrayInfo{globalIdx: uint32(gv.Variable), memberOffset: 0, elemStride: arr.Stride}, true
+				}
+			}
+		}
+		return runtimeArrayInfo{}, false
+	}
 	ai, ok := expr.Kind.(ir.ExprAccessIndex)
 	if !ok {
 		return runtimeArrayInfo{}, false
